@@ -39,6 +39,11 @@ class Generator:
         self.ndraws = 0
         self.backend = backend
         self.source = source
+        self.log = []
+
+    def reset(self):
+        self.count = self.npicks = self.ndraws = 0
+        self.log = []
 
     # ---- plumbing
     @property
@@ -47,6 +52,7 @@ class Generator:
 
     def _log(self, method, params=None):
         self.count += 1
+        self.log.append((method, params))
         if not self.concrete:
             E.cur().draws.append(dict(stream=self.stream, method=method, site=_callsite(), params=params))
 
